@@ -4,7 +4,7 @@
    also says: no panic, and the function returns (no hang). *)
 From Coq Require Import ZArith String List Bool.
 From PushModel Require Import Base.Sx Base.Machine Base.ListOps Base.F32 Model.Item Model.State Model.InstrBase Model.Registry
-  Model.RandomGen Model.IRand Spec.RandSpec Proofs.RandCode Proofs.RandVec.
+  Model.Interp Model.RandomGen Model.IRand Model.RegistryRand Model.RegistryAll Spec.RandSpec Proofs.RandCode Proofs.RandVec Proofs.RandDispatch.
 Import ListNotations.
 Open Scope Z_scope.
 Open Scope list_scope.
@@ -117,6 +117,12 @@ Theorem C13_randbound_returns_bound_name : forall p w s,
   exists w' nm, name_rand_bound p w s = Ok (w', push_name s nm) /\ In nm (map fst (st_bind s)).
 Proof. exact @randbound_returns_bound_name. Qed.
 Print Assumptions C13_randbound_returns_bound_name.
+
+(* the interpreter dispatches the nine RAND names to the bodies the theorems above speak about *)
+Theorem C13_rand_names_dispatch : forall (FO : FloatOps),
+  Forall (fun e => lookup full_registry (s2l (fst e)) = Some (snd e)) (tbl_rand full_names).
+Proof. exact @rand_names_dispatch. Qed.
+Print Assumptions C13_rand_names_dispatch.
 
 (* ---- non-vacuity and the refuted pinned behaviour ---- *)
 Example C13_nonvacuous_flip :
